@@ -446,6 +446,13 @@ func applySetUpdates(dir string, opts GlobalOptions, id string, updates map[stri
 			}
 		}
 
+		// A task may only be assigned to a live epic ("" unassigns).
+		if epicID, hasEpic := updates["epic"]; hasEpic && epicID != "" && !isEpic(task) {
+			if err := validateEpicRef(graph, epicID); err != nil {
+				return err
+			}
+		}
+
 		now := time.Now().UTC()
 
 		// Build events using pure function, passing I/O-dependent body resolver
